@@ -434,6 +434,64 @@ def check_dispatch(rep, prog, m):
     rep.ob('R-DOM', 'from_phi_inbreeding F=0', okz, 'all F == 0 delegates to from_phi with all options forwarded', rel, fi.lineno, what='F -> 0 reduces to plain sampling')
 
 
+
+def reaching_values(fn, node, name):
+    """values assigned to `name` that can reach `node`: the nearest preceding statement(s) that bind it, looking backwards
+    through the enclosing blocks (a compound statement that binds the name on some path contributes all its bindings)"""
+    def binds(st):
+        out = []
+        for n in ast.walk(st):
+            if isinstance(n, ast.Assign):
+                for t in n.targets:
+                    for x in ([t] if not isinstance(t, (ast.Tuple, ast.List)) else t.elts):
+                        if isinstance(x, ast.Name) and x.id == name:
+                            out.append(n.value if not isinstance(t, (ast.Tuple, ast.List)) else None)
+            elif isinstance(n, (ast.For, ast.comprehension)) and any(isinstance(x, ast.Name) and x.id == name for x in ast.walk(n.target)):
+                out.append(None)
+        return out
+    child = node
+    par = getattr(node, '_parent', None)
+    while par is not None:
+        for fld in ('body', 'orelse', 'finalbody'):
+            blk = getattr(par, fld, None)
+            if isinstance(blk, list) and child in blk:
+                i = blk.index(child)
+                for st in reversed(blk[:i]):
+                    b = binds(st)
+                    if b:
+                        return b
+        if par is fn:
+            break
+        child, par = par, getattr(par, '_parent', None)
+    return ['param'] if name in func_params(fn) else []
+
+
+def check_inplace_fresh(rep, prog, m):
+    """an array that is updated in place (factor *= x(1-x) for het_ascertained, data[...] = ...) must be the function's own
+    fresh array on every path: an alias of a cached factor or of an argument would be modified for its other users"""
+    for q, fn in sorted(m.funcs.items()):
+        if 'from_phi' not in q:
+            continue
+        sites = []
+        for n in own_nodes(fn):
+            if isinstance(n, ast.AugAssign) and isinstance(n.target, ast.Name):
+                sites.append((n, n.target.id))
+            elif isinstance(n, ast.AugAssign) and isinstance(n.target, ast.Subscript) and isinstance(n.target.value, ast.Name):
+                sites.append((n, n.target.value.id))
+        bad = []
+        for n, name in sites:
+            vals = reaching_values(fn, n, name)
+            for v in vals:
+                fresh = isinstance(v, (ast.BinOp, ast.UnaryOp, ast.Constant, ast.ListComp, ast.List)) or \
+                    (isinstance(v, ast.Call) and not (isinstance(v.func, ast.Attribute) and v.func.attr in ('get', 'setdefault', 'view', 'reshape', 'ravel', 'swapaxes', 'transpose')))
+                if not fresh:
+                    bad.append('`%s` (line %d) updates `%s`, which may be %s' % (ast.unparse(n)[:50], n.lineno, name,
+                                                                                  'an argument' if v == 'param' else 'bound by unpacking / iteration' if v is None else 'the alias `%s`' % ast.unparse(v)[:40]))
+        if sites:
+            rep.ob('R-FRESH', 'Spectrum_mod:%s in-place updates' % q.split('.')[-1], not bad, '; '.join(bad) if bad else '%d in-place updates, all on fresh arrays of this call' % len(sites), m.rel, fn.lineno,
+                   what='arrays updated in place are fresh on every path (no cached factor or argument is modified)')
+
+
 def run(rep, prog, tier):
     m = prog.mod(SM)
     rep.saw_file(m.rel)
@@ -445,6 +503,7 @@ def run(rep, prog, tier):
     for q, cache in (('BetaBinomln', '_BetaBinomln_cache'), ('multinomln', '_multinomln_cache'), ('cached_part', '_part_cache'), ('cached_part_precalc', '_part_precalc_cache')):
         c20.rule_key_full(rep, prog, 'dadi.Numerics', q, cache)
     check_dispatch(rep, prog, m)
+    check_inplace_fresh(rep, prog, m)
     # sampling is a linear functional of the density: no clamp, absolute value, threshold, product of two density terms ...
     from sa.linear import rule_lin
     for q, fn in sorted(m.funcs.items()):
